@@ -46,6 +46,12 @@ def run(ctx):
     nil_as_false(ctx, lexpr)
     bytes_elisp(ctx, lexpr)
     rescan(ctx, lexpr)
+    # a symbol is printed verbatim: it must come back as that symbol unless it is exactly the `nil` / `t` the options
+    # give a meaning to, or carries the postfix-keyword colon (decision table shared with C08)
+    from . import c08
+    pt = lexpr.fn(c08.P + "parse_token")
+    if pt is not None:
+        c08.opt_decision(ctx, lexpr, pt)
 
 
 
